@@ -178,7 +178,7 @@ def run(ck, facts):
             # the arm may have moved into a helper of the same backend (same enum, same variants): reuse its triage unless that was site-specific
             cands = [c for c in by_loose.get(loose(k), []) if c not in exact_now] or by_loose.get(loose(k), [])
             t2 = tri.get(cands[0]) if cands else None
-            if t2 and t2["class"] in ("excluded-by-property", "impossible-by-type", "impossible-by-gate"):
+            if t2 and t2["class"] in ("excluded-by-property", "impossible-by-type", "impossible-by-gate", "identifier-value"):
                 seen.add(cands[0])
                 ck.ok("R1", k, "%s (triaged as %s): %s" % (t2["class"], cands[0], t2.get("why", "")), e["loc"])
                 continue
